@@ -1,5 +1,7 @@
 package open_game_manager
 
+import "github.com/weedbox/syncsaga"
+
 func (m *openGameManager) readyGroupResetParticipants() {
 	m.rg.ResetParticipants()
 	m.state.Participants = map[string]*OpenGameParticipant{}
@@ -14,14 +16,26 @@ func (m *openGameManager) readyGroupAddParticipant(participant OpenGameParticipa
 	m.rg.Add(int64(participant.Index), isReady)
 }
 
-func (m *openGameManager) readyGroupOnCompleted() {
+func (m *openGameManager) readyGroupOnCompleted(rg *syncsaga.ReadyGroup) {
+	m.mu.Lock()
+	if rg != m.rg {
+		// completion of a superseded set-up
+		m.mu.Unlock()
+		return
+	}
 	for participantID := range m.state.Participants {
 		m.state.Participants[participantID].IsReady = true
 	}
-	m.onOpenGameReady(m.GetState())
+	state := m.GetState()
+	m.mu.Unlock()
+
+	m.onOpenGameReady(state)
 }
 
 func (m *openGameManager) readyGroupReady(participantID string) error {
+	m.mu.Lock()
+	defer m.mu.Unlock()
+
 	participant, exist := m.state.Participants[participantID]
 	if !exist {
 		return ErrParticipantNotFound
